@@ -8,7 +8,8 @@ from . import C14, C07
 
 ID = 'C10'
 PROFILES = ['dev']
-BOUNDS = {'arrays': '0..=2 (quick 0..=1) sequence elements and 2..=3 dictionary entries (keys: the strings "m", "b" + null / any boolean / "z"; symbolic key strings make z3\'s sequence-order queries exceed the time limit: measured 288 s), values lazily symbolic of any scalar kind with opaque strings',
+BOUNDS = {'linter': 'Linter::run executed twice on every two-assignment program of C19 (names / values symbolic, all line placements); any hash container iterated on the way forks over its permutations',
+          'arrays': '0..=2 (quick 0..=1) sequence elements and 2..=3 dictionary entries (keys: the strings "m", "b" + null / any boolean / "z"; symbolic key strings make z3\'s sequence-order queries exceed the time limit: measured 288 s), values lazily symbolic of any scalar kind with opaque strings',
           'hash order': 'insertion order vs. any permutation of the dictionary (self-composition; equality with the insertion-order result for every order implies equality between any two orders)',
           'observables': 'Val::join result or error (incl. which element is blamed), Display of the array, equality verdict against a re-built copy, is-empty',
           'inventory': 'every HashMap iteration site in the MIR of the whole crate is listed; a site not analysed by a harness makes the check inconclusive'}
@@ -28,7 +29,7 @@ KEYS3 = ['m', 'M', 'b']       # insertion order differs from sorted order; two k
 def iteration_sites(mir):
     """every place in the crate's MIR where a hash container is iterated"""
     sites = []
-    pat = re.compile(r'(?:HashMap|HashSet)::<.*?>::(iter|values|keys|into_iter|drain|iter_mut|values_mut|into_values|into_keys|retain)\b|<&(?:mut )?(?:std::collections::)?(?:HashMap|HashSet)<.*?> as IntoIterator>::into_iter')
+    pat = re.compile(r'(?:HashMap|HashSet)::<.*?>::(iter|values|keys|into_iter|drain|iter_mut|values_mut|into_values|into_keys|retain)\b|<&?(?:mut )?(?:std::collections::)?(?:HashMap|HashSet)<.*?> as IntoIterator>::into_iter')
     for f in mir.fns.values():
         for bb in f.blocks.values():
             for line in bb:
@@ -116,8 +117,32 @@ def h_display(vm, mir, third):
     eq = vm.run_fn(fn(mir, 'Val', 'eq', 'PartialEq'), [R(a1), R(a2)])
     eq2 = vm.run_fn(fn(mir, 'Val', 'eq', 'PartialEq'), [R(a2), R(a1)])
     ck.bad('array-eq-depends-on-hash-order', 'array equality is not symmetric under different dictionary orders', as_bool_term(eq) == as_bool_term(eq2))
+    # ... and the verdict must be the one obtained when both builds iterate in the same order
+    a3, _, _ = build_array(vm, nseq, third, (0, 1)); tags[a3.fields[0].box.cell.v.fields[1].order_tag] = p1
+    eq3 = vm.run_fn(fn(mir, 'Val', 'eq', 'PartialEq'), [R(a1), R(a3)])
+    ck.bad('array-eq-depends-on-hash-order', 'the equality verdict of two arrays with the same content depends on their dictionary iteration orders', as_bool_term(eq) == as_bool_term(eq3))
     vm.witness = {'display-done'}
     return ck.out
+
+
+def h_lint(vm, mir):
+    """Linter::run twice on the same two-assignment program: every hash container iterated on the way forks over its
+    permutations independently in the two runs, so any dependence of the report on hash order shows as a difference"""
+    from . import C19
+    from ..progrun import text_of
+    adt, node, lines = C19.two_assignments(vm, mir)
+    d = lambda m: {'tree': node.describe(), 'lines': lines, 'names': C19.names_of(node, m)}
+    vm.describe = d
+    outs = []
+    for k in range(2):
+        linter = vm.run_fn(free_fn(mir, 'standard_linter'), [])
+        res = vm.run_fn(fn(mir, 'Linter', 'run'), [R(linter), R(adt)])
+        outs.append([(x.fields[2], text_of(vm, x.fields[0])) for x in res.fields[0].fields[0].items])
+    vm.witness = {'lint-done'}
+    if outs[0] != outs[1]:
+        m = model_of(vm)
+        if m is not None: return [finding('violation', 'lint-report-depends-on-hash-order', f'two runs of the linter on the same program reported {outs[0]} and {outs[1]}', d(m), vm.notes)]
+    return []
 
 
 def h_inventory(vm, mir):
@@ -131,7 +156,7 @@ def h_inventory(vm, mir):
 
 def jobs(ctx, tier):
     mir = ctx.mir('dev')
-    js = [Job('inventory', h_inventory, (mir,), witness=['inventory-done'])]
+    js = [Job('inventory', h_inventory, (mir,), witness=['inventory-done']), Job('lint-report', h_lint, (mir,), witness=['lint-done'], str_mode='bounded', weight=10, fuel=12_000_000)]
     for third in range(4):
         js.append(Job(f'join/third-key-{third}', h_join, (mir, third), witness=['join-done'], weight=5))
         js.append(Job(f'display/third-key-{third}', h_display, (mir, third), witness=['display-done'], weight=5))
@@ -184,7 +209,15 @@ def replay(ctx, f):
     if 'a' not in cex: return out
     from ..native import Native
     seen = set()
-    if cex['fn'] == 'display':
+    if f['role'].startswith('array-eq'):
+        # two independent builds of the same content (each HashMap has its own seed), compared with `is`
+        one = program_for(dict(cex, fn='display'))
+        if one is None: return out
+        body = one.rsplit('Say Arr', 1)[0]
+        src = body + body.replace('Arr', 'Brr') + 'Say Arr is Brr\n'
+        out['program'] = src
+        req = {'op': 'program', 'src': src, 'stdin': ''}
+    elif cex['fn'] == 'display':
         src = None; req = {'op': 'val', 'fn': 'build', 'a': cex['a']}      # rendering of the array by its Display impl
     else:
         src = program_for(cex)
